@@ -16,7 +16,7 @@ PROPS_FILES = ["props/C14.v"]
 RULE = ("one case = one scripted session of a real client class on the virtual loop: a session shape (A: connect refused "
         "once, pending 0.3 s, frames, second connect(), half a frame, send with suspending drain, EOF, reconnect, write "
         "error, reconnect; B: three refusals with 0.5/1/2 s back-off, frames, connection reset, write error after a "
-        "suspended drain, EOF) with close() called at EVERY event-loop step position of the shape (before connect, while "
+        "suspended drain, write error and EOF in the same instant, reconnect) with close() called at EVERY event-loop step position of the shape (before connect, while "
         "the transport is pending, during a back-off, idle, mid-packet, inside a status / receive callback, during a send, "
         "right after a fault), x 4 clients x status callback that returns | raises | is slow | is slow and raises; the rest "
         "of the script (connect(), send(), frames, EOF) keeps running after close(); non-trivial = the trace contains "
@@ -35,7 +35,8 @@ _CACHE = {}
 SHAPE_B_CONNS = [{"refuse": True}, {"refuse": True}, {"refuse": True}, {"delay": 0.2}, {"delay": 0.0, "drain": "susp"}]
 SHAPE_B_SCRIPT = [["connect"], ["run", 4.2], ["frames", 1], ["run", 0.2], ["partial"], ["reset"], ["run", 1.0],
                   ["frames", 2], ["run", 0.2], ["wmode", "suspfail"], ["send"], ["run", 1.0], ["connect"], ["frames", 1],
-                  ["run", 0.3], ["eof"], ["run", 1.0], ["send"], ["run", 0.3]]
+                  ["run", 0.3], ["wmode", "fail"], ["send"], ["eof"], ["run", 1.5], ["frames", 1], ["run", 0.3], ["send"],
+                  ["run", 0.3]]
 SHAPES = {"A": (None, None), "B": (SHAPE_B_SCRIPT, SHAPE_B_CONNS)}
 PAIR = {"raise": "ret", "slowraise": "slow"}
 
@@ -62,6 +63,12 @@ def close_specs(ctx):
             for cb in cbs:
                 base.append(_spec(c, cb, sh))
                 bmeta.append({"client": c, "cb": cb, "shape": sh, "at": None})
+            if thorough:        # a status / receive callback that stays suspended across many other steps
+                for cb in ("slow", "slowraise"):
+                    s = _spec(c, cb, sh)
+                    s["cb_delay"] = 0.35
+                    base.append(s)
+                    bmeta.append({"client": c, "cb": cb, "shape": sh + "/cb0.35", "at": None})
     bobs = vloop.run_batch([dict(s) for s in base], _repo(), wall=6, procs=3)
     specs, meta = [], []
     for s, m, o in zip(base, bmeta, bobs):
@@ -79,9 +86,7 @@ def close_specs(ctx):
             for s2, m2, o2 in zip(base, bmeta, bobs):
                 if (m2["client"], m2["shape"], m2["cb"]) == (m["client"], m["shape"], PAIR[m["cb"]]) and o2.get("npos"):
                     npos = o2["npos"]
-        # quick: shape B and the 'slowraise' family at every second position
-        stride = 1 if (thorough or (m["shape"] == "A" and m["cb"] != "slowraise")) else 2
-        for at in range(0, npos + 1, stride):
+        for at in range(0, npos + 1):
             sp = dict(s)
             sp["inject"] = {"at": at, "ops": [["close"]]}
             inj.append((sp, {"client": m["client"], "cb": m["cb"], "shape": m["shape"], "at": at}))
